@@ -297,12 +297,29 @@ func (u *Url) newUrlSearchParams() {
 	u.searchParams = usp
 }
 
+// IsIPv4 reports whether the host is an IPv4 address. It is derived from the current host,
+// because the host can change (setters) or be copied from a base URL after it was parsed.
 func (u *Url) IsIPv4() bool {
-	return u.isIPv4
+	if u.host == nil || !u.IsSpecialScheme() {
+		return false
+	}
+	// the host of a special URL is serialized as four decimal octets exactly when it is an IPv4 address
+	parts := strings.Split(*u.host, ".")
+	if len(parts) != 4 {
+		return false
+	}
+	for _, p := range parts {
+		if p == "" || !containsOnly(p, ASCIIDigit) {
+			return false
+		}
+	}
+	return true
 }
 
+// IsIPv6 reports whether the host is an IPv6 address. '[' is a forbidden host code point, so only a
+// serialized IPv6 address starts with it.
 func (u *Url) IsIPv6() bool {
-	return u.isIPv6
+	return u.host != nil && strings.HasPrefix(*u.host, "[")
 }
 
 // Clone returns a deep copy of the URL.
